@@ -68,7 +68,15 @@ class fibonacci_heap
         for (int i = 0; i < max_num_nodes; i++)
             nodes[i] = new fibonacci_heap_node;
 
-        Dn = 1 + (int)(log(ScalarType(max_num_nodes)) / log(2.));
+        // a root of rank r heads a tree of at least fib(r + 2) nodes, so every
+        // rank stays below the first r with fib(r + 2) > capacity
+        Dn = 1;
+        for (long fib_prev = 1, fib = 2; fib <= max_num_nodes; Dn++)
+        {
+            long fib_next = fib_prev + fib;
+            fib_prev = fib;
+            fib = fib_next;
+        }
         A = (fibonacci_heap_node**)malloc(sizeof(fibonacci_heap_node*) * Dn);
         for (int i = 0; i < Dn; i++)
             A[i] = NULL;
